@@ -460,6 +460,32 @@ pub fn run_spaces(prop: &str, tier: Tier, spaces: &[Box<dyn Space>], wall_cap: D
             lo = hi;
         }
     }
+    // determinism self-check: the first cases of every cheap space are run twice (fresh
+    // worker each time) and must give identical outcome histograms
+    for (si, s) in spaces.iter().enumerate() {
+        if s.chunk() == 1 || s.size() == 0 {
+            continue;
+        }
+        // heavy cases (small chunks) are self-checked on two cases only
+        let k = s.size().min(if s.chunk() >= 64 { 64 } else { 2 });
+        let job = Job { space: si, lo: 0, hi: k, single: false };
+        let mut runs = Vec::new();
+        for _ in 0..2 {
+            if let Ok(mut w) = spawn_worker(s.profile(), prop, tier) {
+                if let ChunkEnd::Done(j) = run_job(&mut w, &job) {
+                    runs.push(json!({"classes": j["classes"], "nontrivial": j["nontrivial"], "unknown_total": j["unknown_total"]}));
+                }
+                let _ = w.stdin.write_all(b"QUIT\n");
+                let _ = w.child.wait();
+            }
+        }
+        if runs.len() == 2 && runs[0] != runs[1] {
+            report.machinery_errors.push(format!(
+                "nondeterministic check: space {} cases 0..{k} gave {} then {}",
+                s.id(), runs[0], runs[1]
+            ));
+        }
+    }
     let report = Arc::new(Mutex::new(report));
     let capped = Arc::new(AtomicBool::new(false));
     for (pdir, q) in queues {
